@@ -645,7 +645,7 @@ func runTrees(r *core.Run, cases []treeCase, cfgs []config) {
 				nOut++
 				cf := cfgs[o.cfg]
 				key := map[string]interface{}{"kind": "tree", "skeleton": c.Skel, "input": s.src, "config": cf.Name(), "hazard": hazardOf(c.Labels),
-					"let_bracket_start": hasLabel(c.Labels, "start-let-bracket")}
+					"let_bracket_start": hasLabel(c.Labels, "start-let-bracket"), "div_regexp_glue": hasLabel(c.Labels, "glue-div-regexp")}
 				detail := map[string]interface{}{"case": c, "spelling": s.name, "input": s.src, "config": cf, "expected_sexp": in.NF()}
 				if o.err != "" {
 					key["check"] = "accepts-valid-input"
